@@ -136,7 +136,7 @@ Section MonoSpec.
   Qed.
 End MonoSpec.
 
-(* ------------------------------------------------------------ the code as it is *)
+(* ------------------------------------------------------------ the code before the repair *)
 (* as long as psutil.boot_time() is not called, steps of btime change nothing: the cached
    create_time() and every fresh read use the same BOOT_TIME cache *)
 Lemma run_clock_inv : forall ident evs k c, ~ In CallBootTime evs ->
@@ -169,7 +169,7 @@ Proof.
   unfold k_eff. rewrite Kc. subst w. replace (ident + b - b) with ident by lia. rewrite Z.eqb_refl. apply andb_true_r.
 Qed.
 
-(* known finding: create_time() cached, clock stepped by +100 s, psutil.boot_time() called:
+(* fixed (e49a6c9); before the repair: create_time() cached, clock stepped by +100 s, psutil.boot_time() called:
    children() of the live caller 5 reports PID 12, which started before it; parent() is None *)
 Definition tclock : table := [ {| kp_pid := 1; kp_ppid := 0; kp_start := 100 |};
                                {| kp_pid := 5; kp_ppid := 1; kp_start := 3000 |};
@@ -181,11 +181,100 @@ Definition step100 : list cev := [CallCreateTime; SetBtime 150000010000; CallBoo
 Theorem clock_refuted :
   exists t k0 evs, let o := clock_obj 5 3000 k0 evs in
     wf_table t = true /\ live_b t o = true /\
-    spec_children t [] 5 3000 = [9] /\ children_direct as_is t [] o = Val [9; 12] /\
-    spec_parent_v t [] 5 3000 = Some (1, 100) /\ parent as_is t [] None o = Val None /\
-    children_direct with_mono t [] o = Val [9] /\ parent with_mono t [] None o = Val (Some (1, 100)).
+    spec_children t [] 5 3000 = [9] /\ children_direct before_mono_fix t [] o = Val [9; 12] /\
+    spec_parent_v t [] 5 3000 = Some (1, 100) /\ parent before_mono_fix t [] None o = Val None /\
+    children_direct as_is t [] o = Val [9] /\ parent as_is t [] None o = Val (Some (1, 100)).
 Proof. exists tclock, k1500, step100. repeat split; vm_compute; reflexivity. Qed.
 
 Example clock_no_refresh_example :
   children_direct as_is tclock [] (clock_obj 5 3000 k1500 [CallCreateTime; SetBtime 150000010000]) = Val [9].
 Proof. vm_compute. reflexivity. Qed.
+
+(* ------------------------------------------------------------ the code as it is: every theorem
+   proved for a caller with a consistent create_time() cache holds for every live caller *)
+Lemma norm_ops : forall t gone goneb cache fuel o,
+  children_direct as_is t gone o = children_direct as_is t gone (set_ctime o None) /\
+  children_rec as_is fuel t gone o = children_rec as_is fuel t gone (set_ctime o None) /\
+  parent as_is t gone cache o = parent as_is t gone cache (set_ctime o None) /\
+  parents as_is fuel t gone goneb cache o = parents as_is fuel t gone goneb cache (set_ctime o None).
+Proof.
+  intros t gone goneb cache fuel o.
+  destruct (clock_invariance as_is eq_refl t gone goneb cache fuel o None) as [A [B [C D]]].
+  repeat split; symmetry; assumption.
+Qed.
+
+Lemma norm_alive : forall t o, live_b t o = true -> alive_b t (set_ctime o None) = true.
+Proof. intros t o H. rewrite alive_norm. exact H. Qed.
+
+Theorem children_direct_live : forall t gone o, wf_table t = true -> live_b t o = true ->
+  children_direct as_is t gone o = Val (spec_children t gone (o_pid o) (o_ident o)).
+Proof. exact (children_direct_mono as_is eq_refl eq_refl). Qed.
+
+Theorem children_rec_live : forall t gone o, wf_table t = true -> live_b t o = true ->
+  exists l, children_rec as_is (S (length t)) t gone o = Val (Some l) /\ NoDup l /\
+            forall q, In q l <-> (desc t gone (o_pid o) (o_ident o) q /\ q <> o_pid o).
+Proof. exact (children_rec_mono as_is eq_refl eq_refl). Qed.
+
+Theorem parent_live : forall t gone cache o, wf_table t = true -> live_b t o = true ->
+  cache_fresh_b t cache = true ->
+  parent as_is t gone cache o = Val (spec_parent_v t gone (o_pid o) (o_ident o)).
+Proof. exact (parent_mono as_is eq_refl). Qed.
+
+Theorem parent_static_live : forall t cache o, wf_table t = true -> live_b t o = true ->
+  cache_fresh_b t cache = true ->
+  parent as_is t [] cache o = Val (spec_parent t (o_pid o) (o_ident o)).
+Proof. intros t cache o W L F. rewrite (parent_live t [] cache o W L F). rewrite spec_parent_v_nil. reflexivity. Qed.
+
+Theorem parents_total_live : forall t gone goneb cache o,
+  wf_table t = true -> live_b t o = true -> cache_fresh_b t cache = true ->
+  exists l, parents as_is (S (length t)) t gone goneb cache o = Val (Some l).
+Proof.
+  intros t gone goneb cache o W L F.
+  destruct (parents_mono as_is eq_refl t gone goneb cache o eq_refl eq_refl W L F) as [H _]. exact H.
+Qed.
+
+Theorem parents_chain_v_live : forall t gone goneb cache o l fuel,
+  wf_table t = true -> live_b t o = true -> cache_fresh_b t cache = true ->
+  memz (o_pid o) goneb = false ->
+  chain_v t gone goneb (o_pid o) l -> (length l <= fuel)%nat ->
+  parents as_is fuel t gone goneb cache o = Val (Some l).
+Proof.
+  intros t gone goneb cache o l fuel W L F Ng Ch B.
+  destruct (parents_mono as_is eq_refl t gone goneb cache o eq_refl eq_refl W L F) as [_ H]. apply H; assumption.
+Qed.
+
+Theorem parents_oracle_live : forall t gone goneb cache o l,
+  wf_table t = true -> live_b t o = true -> cache_fresh_b t cache = true ->
+  memz (o_pid o) goneb = false ->
+  spec_parents_v t gone goneb (length t) (o_pid o) = Some l ->
+  parents as_is (S (length t)) t gone goneb cache o = Val (Some l) /\ chain_v t gone goneb (o_pid o) l.
+Proof.
+  intros t gone goneb cache o l W L F Ng H. destruct (spec_parents_v_sound _ _ _ _ _ _ H) as [C Len].
+  split; [|exact C]. apply parents_chain_v_live; assumption.
+Qed.
+
+Theorem parents_cut_live : forall t cache o, wf_table t = true -> live_b t o = true ->
+  cache_fresh_b t cache = true ->
+  exists l, parents as_is (S (length t)) t [] [] cache o = Val (Some l) /\ chain_cut t [o_pid o] (o_pid o) l.
+Proof.
+  intros t cache o W L F. destruct (norm_ops t [] [] cache (S (length t)) o) as [_ [_ [_ E]]].
+  destruct (parents_cut t cache (set_ctime o None) W (norm_alive t o L) F) as [l [H C]].
+  exists l. split; [rewrite E; exact H | exact C].
+Qed.
+
+Theorem parents_chain_complete_live : forall t cache o l fuel, wf_table t = true -> live_b t o = true ->
+  cache_fresh_b t cache = true -> chain t (o_pid o) l -> (length l <= fuel)%nat ->
+  parents as_is fuel t [] [] cache o = Val (Some l).
+Proof.
+  intros t cache o l fuel W L F Ch B. destruct (norm_ops t [] [] cache fuel o) as [_ [_ [_ E]]]. rewrite E.
+  apply (parents_chain_complete t cache (set_ctime o None) l fuel W (norm_alive t o L) F Ch B).
+Qed.
+
+Theorem parents_acyclic_chain_live : forall t cache o, wf_table t = true -> live_b t o = true ->
+  cache_fresh_b t cache = true -> acyclic t ->
+  exists l, parents as_is (S (length t)) t [] [] cache o = Val (Some l) /\ chain t (o_pid o) l.
+Proof.
+  intros t cache o W L F AC. destruct (norm_ops t [] [] cache (S (length t)) o) as [_ [_ [_ E]]].
+  destruct (parents_acyclic_chain t cache (set_ctime o None) W (norm_alive t o L) F AC) as [l [H C]].
+  exists l. split; [rewrite E; exact H | exact C].
+Qed.
